@@ -95,7 +95,7 @@ theorem clipFactor_eq_one {C n : ℝ} (h : n + 1e-6 ≤ C) (hn : 0 ≤ n) : clip
 section sums
 variable {P : Nat} {d : Fin P → Nat}
 
-theorem foldl_gadd_apply (f : Grad ℝ d → Grad ℝ d) (l : List (Grad ℝ d)) (a : Grad ℝ d)
+theorem foldl_gadd_apply {α : Type} (f : α → Grad ℝ d) (l : List α) (a : Grad ℝ d)
     (k : Fin P) (i : Fin (d k)) :
     (l.foldl (fun acc g => gadd acc (f g)) a) k i = a k i + (l.map (fun g => f g k i)).sum := by
   induction l generalizing a with
